@@ -77,10 +77,12 @@ def run(ctx):
             else:
                 i = int(where[3:])
                 d2[i]["body"] = replace_at(d2[i]["body"], pos, ("R",))
+            # every third case plants an exception that derives from BaseException only (handlers written accordingly)
+            core_gen.BASE[0] = (len(req) % 3 == 2)
             src = core_gen.program_src(d2, b2)
             ctx.evaluations += 1
             ctx.nontrivial.add(src)
-            case = {"template": src, "raise_at": "%s %s" % (where, list(pos))}
+            case = {"template": src, "raise_at": "%s %s" % (where, list(pos)), "exception_derives_from": "BaseException" if core_gen.BASE[0] else "Exception"}
             try:
                 obs = core_gen.observe_render(src)
             except Exception as e:  # noqa
@@ -103,13 +105,54 @@ def run(ctx):
             try:
                 obs["template"].render_context(ctx2)
                 out2 = "normal"
-            except Exception:  # noqa
+            except (Exception, core_gen.BoomBase):  # noqa
                 out2 = "raised"
             if (out2, buf2.getvalue()) != (obs["outcome"], obs["output"]):
                 ctx.violation(dict(case, first=obs["output"][:200], second=buf2.getvalue()[:200]), "a second render of the same Template gives a different result", tags=["c13.rerender"])
             req.append(core_gen.program_tok(d2, b2))
             got.append((case, core_gen.model_line_of(obs)))
+    core_gen.BASE[0] = False
     ctx.generators["raise_points"] = {"programs": nprog, "cases": len(req)}
+
+    # ---- raise points in the entry code of a nested scope: while it looks up the names it needs ----------------------------
+    # (a NameError under strict_undefined; a <%namespace file=...> that cannot be found, first used there)
+    nentry = 0
+    for flags in ["", ' filter="trim"', ' buffered="True"', ' cached="True" cache_impl="verif_none"'][:3]:
+        for trigger in ["strict-name", "missing-namespace"]:
+            for enclosing in ["def-called-with-content", "plain-def", "call-body-def"]:
+                lk = TemplateLookup(strict_undefined=(trigger == "strict-name"))
+                bad = "${missing}" if trigger == "strict-name" else "${ns.foo()}"
+                exc = "NameError" if trigger == "strict-name" else "LookupError"
+                head = '<%namespace name="ns" file="nowhere.html"/>\\\n' if trigger == "missing-namespace" else ""
+                if enclosing == "call-body-def":
+                    src = (head + '<%def name="wrap()">\\\n% try:\n${caller.part()}\\\n% except ' + exc + ':\ncaught \\\n% endtry\n[${caller.body()}]</%def>\\\n'
+                           '<%call expr="wrap()"><%def name="part()"' + flags + '> inner ' + bad + ' </%def>BODY</%call> end')
+                    want = "caught [BODY] end"
+                else:
+                    tail = "[${caller.body()}]" if enclosing == "def-called-with-content" else "tail"
+                    src = (head + '<%def name="outer()">\\\n<%def name="inner()"' + flags + '> inner ' + bad + ' </%def>\\\n% try:\n${inner()}\\\n% except ' + exc + ':\ncaught \\\n% endtry\n' + tail + '</%def>\\\n'
+                           + ('<%call expr="outer()">BODY</%call> end' if enclosing == "def-called-with-content" else "${outer()} end"))
+                    want = "caught [BODY] end" if enclosing == "def-called-with-content" else "caught tail end"
+                lk.put_string("/main.html", src)
+                case = {"template": src, "strict_undefined": trigger == "strict-name", "inner_def": flags.strip() or "plain", "enclosing": enclosing}
+                for attempt in (1, 2):
+                    ctx.evaluations += 1
+                    nentry += 1
+                    ctx.nontrivial.add((src, attempt))
+                    buf = util.FastEncodingBuffer()
+                    c_ = Context(buf, LookupError=exceptions.TemplateLookupException)
+                    try:
+                        lk.get_template("/main.html").render_context(c_)
+                        res = " ".join(buf.getvalue().split())
+                    except Exception as e:  # noqa
+                        res = "raised %s: %s" % (type(e).__name__, str(e)[:80])
+                    state = (len(c_._buffer_stack), len(c_.caller_stack), c_.caller_stack.nextcaller is not None)
+                    if res != want or state != (1, 0, False):
+                        ctx.violation(dict(case, render_number=attempt, rendered=res, expected=want, stacks_after=repr(state)),
+                                      "an exception raised while a nested scope looks up its names, and handled, must leave caller and the buffers as they were",
+                                      tags=["c13.entry-code"])
+                        break
+    ctx.generators["entry_code_raise_points"] = {"cases": nentry}
 
     # ---- handlers outside the template ---------------------------------------------------------------------
     class Boom2(Exception):
